@@ -437,6 +437,10 @@ class _Env(M.Env):
         self.pos_override = pos_override
 
     def sym(self, level, names):
+        if level == 0 and len(names) == 1 and names[0] in ("pc", "$"):
+            # the address builtin: written bare it always means the current address, even if the program also
+            # declares a symbol of that name
+            return ("int", self.pc(), None)
         full = self.asm.resolve_name(self.ctx, level, names)
         return self.asm.value_of(full)
 
